@@ -1,4 +1,5 @@
 import Cgm.Lemmas.AuditCmd
 import Cgm.E2E.C09
 import Cgm.E2E.C09b
+import Cgm.E2E.C09h
 #audit_namespace Cg.E2E.C09
